@@ -189,8 +189,9 @@ func c15Prop(rt *rapid.T, rec *ev.Recorder) {
 				parent := chain.HashOf(num - 1)
 				var evs []interface{}
 				for k, nl := 0, rapid.SampledFrom([]int{0, 0, 1, 1, 2}).Draw(rt, "nLeaves"); k < nl; k++ {
+					evs = c15Verify(rt, evs, num)
 					mer, rer := common.Hash{0x33, byte(num), byte(k), byte(len(leaves)), forkSalt}, common.Hash{0x44, byte(num >> 8), byte(k), forkSalt}
-					evs = append(evs, l1infotreesync.Event{UpdateL1InfoTree: &l1infotreesync.UpdateL1InfoTree{BlockPosition: uint64(k), MainnetExitRoot: mer, RollupExitRoot: rer, ParentHash: parent, Timestamp: num}})
+					evs = append(evs, l1infotreesync.Event{UpdateL1InfoTree: &l1infotreesync.UpdateL1InfoTree{BlockPosition: uint64(len(evs)), MainnetExitRoot: mer, RollupExitRoot: rer, ParentHash: parent, Timestamp: num}})
 					leaves = append(leaves, c15Leaf{Block: num, GER: ref.GER(mer, rer), Idx: len(leaves)})
 				}
 				pending = append(pending, aggkitsync.Block{Num: num, Hash: chain.HashOf(num), Events: evs})
@@ -205,8 +206,9 @@ func c15Prop(rt *rapid.T, rec *ev.Recorder) {
 				num := chain.Extend(nil)
 				var evs []interface{}
 				for k, nl := 0, rapid.SampledFrom([]int{0, 0, 1, 1, 2}).Draw(rt, "nLeaves"); k < nl; k++ {
+					evs = c15Verify(rt, evs, num)
 					mer, rer := common.Hash{0x11, byte(num), byte(k), byte(len(leaves))}, common.Hash{0x22, byte(num >> 8), byte(k)}
-					evs = append(evs, l1infotreesync.Event{UpdateL1InfoTree: &l1infotreesync.UpdateL1InfoTree{BlockPosition: uint64(k), MainnetExitRoot: mer, RollupExitRoot: rer, ParentHash: parent, Timestamp: num}})
+					evs = append(evs, l1infotreesync.Event{UpdateL1InfoTree: &l1infotreesync.UpdateL1InfoTree{BlockPosition: uint64(len(evs)), MainnetExitRoot: mer, RollupExitRoot: rer, ParentHash: parent, Timestamp: num}})
 					leaves = append(leaves, c15Leaf{Block: num, GER: ref.GER(mer, rer), Idx: len(leaves)})
 				}
 				pending = append(pending, aggkitsync.Block{Num: num, Hash: chain.HashOf(num), Events: evs})
@@ -373,4 +375,20 @@ func keysOf(m map[uint64]bool) []uint64 {
 func TestC15(t *testing.T) {
 	rec := ev.For("C15", c15Rule)
 	rapid.Check(t, func(rt *rapid.T) { c15Prop(rt, rec) })
+}
+
+// c15Verify puts, now and then, one of the other events the L1 info syncer watches in front of an info-tree update of the
+// same block: a rollup's batch verification, with the exit root of a rollup that has no exits yet (zero) or any other.
+func c15Verify(rt *rapid.T, evs []interface{}, num uint64) []interface{} {
+	k := rapid.IntRange(0, 5).Draw(rt, "verifyBatchesBeforeTheLeaf")
+	if k > 1 {
+		return evs
+	}
+	seq := num*8 + uint64(len(evs))
+	er := common.Hash{}
+	if k == 1 {
+		er = common.Hash{0x55, byte(num), byte(seq), byte(seq >> 8)}
+	}
+	return append(evs, l1infotreesync.Event{VerifyBatches: &l1infotreesync.VerifyBatches{BlockPosition: uint64(len(evs)), RollupID: uint32(1 + seq%3),
+		NumBatch: seq, StateRoot: common.Hash{3}, ExitRoot: er, Aggregator: common.Address{4}}})
 }
